@@ -14,7 +14,7 @@ if [ ! -d "$SNAP" ] || [ -n "${SEED_RESNAP:-}" ]; then
   mkdir -p "$SNAP"; rsync -a --delete --exclude=/build --exclude=/.git --exclude=/replays --exclude=/evidence /verif/ "$SNAP/"
   grep -rl '/repo' "$SNAP" --include=*.go --include=*.sh --include=go.mod | xargs sed -i "s#/repo#$CLONE#g"
 fi
-git -C "$CLONE" apply "$PATCH" || { echo "patch does not apply" >&2; exit 2; }
+git -C "$CLONE" apply "$PATCH" 2>/dev/null || { git -C "$CLONE" apply --3way "$PATCH" >/dev/null 2>&1 && git -C "$CLONE" reset -q && ! grep -rlq "^<<<<<<< " --include=*.go --include=*.peg "$CLONE" ; } || { git -C "$CLONE" checkout -q -- . ; echo "patch does not apply" >&2; exit 2; }   # (3-way: a seed written before a later fix touched the same file)
 LOG=$(mktemp)
 for ID in "$@"; do
   (cd $SNAP && VERIF_DEADLINE_SECS=${SEED_SECS:-120} ./run.sh $ID quick >$LOG 2>&1); RC=$?
